@@ -3,6 +3,7 @@ import gens as G
 import pyimpl as P
 from oracle_util import *  # noqa
 from tokutil import *  # noqa
+import h1tok_util as H
 
 ID = "C02"
 LEAN_MODULE = ["SCoda.Props.C02", "SCoda.Props.Glue", "SCoda.Props.C02b", "SCoda.Props.TokTie"]
@@ -30,7 +31,10 @@ CLAUSES = [
      ["SCoda.TokTie.constructDictionary_all", "SCoda.TokTie.constructDictionary_eq", "SCoda.TokTie.constructDictionary_dictionary", "SCoda.TokTie.dictionarySize_eq", "SCoda.TokTie.tokInit_eq'", "SCoda.TokTie.encode_eq", "SCoda.TokTie.decode_eq", "SCoda.TokTie.tokenise_eq", "SCoda.TokTie.detokenise_eq"]),
 ]
 RULE = ("configurations: 16 flag combinations x velocity_bins x tracks 1..3 x pitch ranges x value sets (quick: 24 sampled, "
-        "thorough: the lattice); the whole Python dictionary is compared with the model's rendered vocabulary entry by entry; "
+        "thorough: the lattice) + configurations off the default step list (quick 16, thorough 120: custom and unsorted step lists, a step above "
+        "ppqn, three-digit steps, single-step lists, custom value sets, ppqn 12/48/96/6, and lists with a repeated entry = known finding D31); "
+        "closure is judged on pieces drawn on each configuration's own grid plus one piece per configuration that makes tokenise use every "
+        "step size that fits a bar; the whole Python dictionary is compared with the model's rendered vocabulary entry by entry; "
         "non-trivial = every configuration (distinct)")
 ASSUMPTIONS = ["models: SCoda.vocabSeq / encodeTok / decodeId / render, tied by comparing the entire dictionary"]
 RANGES = [(60, 64), (21, 108), (0, 127), (60, 60)]
@@ -114,17 +118,63 @@ def setup(ctx):
     with open(_os.path.join(_os.path.dirname(_os.path.dirname(_os.path.dirname(_os.path.abspath(__file__)))), "known_findings.json")) as _f:
         _dup = next(x for x in _json.load(_f)["findings"] if x["id"] == "D16b")["velocity_bins_duplicates"]
 
+    import re as _re
+
+    def _lost_ids_outcome(f):
+        """the failure shows exactly what repeated keys do on the unchanged tree: every id but the last one assigned to a repeated key is
+        lost.  The numbers are predicted from the configuration alone by the harness-side construction sequence (h1tok_util.d31_prediction:
+        step list, value list, and the bin values of the harness-side bin formula): ids handed out, entries kept, which ids no key maps to."""
+        if f["oracle"] != "vocab" or f["clause"] not in ("bijection", "size", "inverse"):
+            return False
+        handed, kept, lost = H.d31_prediction(P.TkCfg(**f["input"]["cfg"]).kw)          # TkCfg only fills in the constructor's default keywords
+        d = f["detail"]
+        if f["clause"] == "size":
+            m = _re.search(r"dictionary_size (\d+) != (\d+) entries", d)
+            return bool(m) and (int(m.group(1)), int(m.group(2))) == (handed, kept)
+        if f["clause"] == "bijection":
+            m = _re.search(r"\(size (\d+), max id (\d+)\)", d)
+            return bool(m) and (int(m.group(1)), int(m.group(2))) == (kept, handed - 1)
+        m = _re.search(r"^id (\d+): KeyError$", d)          # decode of a lost id; every other `inverse` failure is not such a finding
+        return bool(m) and int(m.group(1)) in lost
+
     def kf_d16b(f):
         # the bin COUNTS for which the unchanged get_velocity_bins repeats 127 — recorded data, not recomputed from the implementation
-        # under test (a change that makes other counts collide is a new violation)
-        return f["input"]["cfg"].get("velocity_bins", 1) in _dup and f["clause"] in ("bijection", "size", "inverse")
+        # under test (a change that makes other counts collide is a new violation) — and the outcome the repeated bins produce
+        return f["input"]["cfg"].get("velocity_bins", 1) in _dup and _lost_ids_outcome(f)
     ctx.kf_predicates["D16b"] = kf_d16b
+
+    def kf_d31(f):
+        """a repeated entry in the USER-SUPPLIED step_sizes / note_values list; only the `vocab` clauses that fail because of it and only
+        with the numbers the defect produces"""
+        return any(H.user_duplicates(f["input"]["cfg"])) and _lost_ids_outcome(f)
+    ctx.kf_predicates["D31"] = kf_d31
+
+
+# finding D31 (audit round 3, O4): a repeated entry in step_sizes
+D31_EXAMPLE = {"cfg": dict(num_tracks=1, pitch_range=(60, 62), step_sizes=[4, 4, 8])}
+D31_EXAMPLE_VALUES = {"cfg": dict(num_tracks=1, pitch_range=(60, 62), note_values=[12, 12, 24])}
+# audit round 3, O3: every step size the rests are cut into must be a vocabulary token, also a step above ppqn
+STEP_EXAMPLE = {"cfg": dict(num_tracks=1, step_sizes=[2, 4, 8, 48], note_values=[24]),
+                "tracks": [[G.pm(TIMESIG, 0, None, num=4, den=4), G.pm(WAIT, 0, 48), G.pm(ON, 0, None, note=60, vel=64), G.pm(WAIT, 0, 24),
+                            G.pm(OFF, 0, None, note=60)]]}
 
 
 def generate(ctx):
     rng = ctx.rng
     ctx.check("vocab", {"cfg": dict(num_tracks=1, velocity_bins=19, pitch_range=(60, 62))})
+    ctx.check("vocab", D31_EXAMPLE)
+    ctx.check("vocab", D31_EXAMPLE_VALUES)
+    ctx.check("closed", STEP_EXAMPLE)
     cfgs = []
+    # off the default step list (audit round 3, O3/O4): custom / unsorted step lists, a step above ppqn, three-digit steps, custom value
+    # sets, other resolutions; some with a repeated list entry (D31)
+    custom = []
+    for j in range(ctx.n(16, 120)):
+        kw = dict(num_tracks=rng.choice([1, 1, 2]), velocity_bins=rng.choice([1, 2, 3, 5]), running=rng.random() < 0.5,
+                  fuse_track=rng.random() < 0.5, fuse_value=rng.random() < 0.5, fuse_velocity=rng.random() < 0.5,
+                  pitch_range=rng.choice(RANGES[:1] + RANGES[3:]))
+        kw.update(H.custom_cfg(rng, dup=0.25, ppqns=(24, 24, 12, 48, 96, 6)))
+        custom.append(kw)
     if ctx.thorough:
         for flags in range(16):
             for bins in (1, 2, 3, 4, 5, 8, 12, 16):
@@ -173,6 +223,7 @@ def generate(ctx):
                 twin["fuse_value"] = not kw["fuse_value"]
             more.append((kw, twin))
             ctx.count("twin:" + which)
+    cfgs = cfgs + custom
     order = []
     before_of = {}
     for kw in cfgs:
@@ -192,10 +243,22 @@ def generate(ctx):
         ctx.check("vocab", {"cfg": kw, "before": before} if before else {"cfg": kw})
         ctx.count("vocab-entries", len(cfg.tk().dictionary))
         ctx.corr("vocab", P.op_vocab(cfg), post=P.vocab_view_from_lean)
-        # closure on pieces drawn for this configuration
+        # closure on pieces drawn for this configuration (on its own grid: resolution, step unit, note values)
         lo, hi = kw["pitch_range"]
-        for pi in range(3):
-            piece = G.gen_piece(rng, n_tracks=kw["num_tracks"], pitch_range=(lo, hi), values=kw.get("note_values") or None)
+        off_default = kw.get("step_sizes") is not None or kw.get("ppqn") is not None
+        for lab in H.describe_cfg(kw):
+            ctx.count("cfg:" + lab)
+        for pi in range(4 if off_default else 3):
+            if pi == 3:
+                # every step size that fits a bar is used by this piece's rests
+                piece = {"tracks": [H.sweep_piece(cfg.kw)] + [[] for _ in range(kw["num_tracks"] - 1)]}
+                ctx.count("closed:step-sweep")
+            elif off_default:
+                piece = H.gen_piece_p(rng, ppqn=kw.get("ppqn") or 24, steps=kw.get("step_sizes"), values=kw.get("note_values"),
+                                      n_tracks=kw["num_tracks"], pitch_range=(lo, hi), max_notes_per_bar=rng.choice([1, 1, 2, 3]),
+                                      ts_range=tuple(kw.get("ts_range", (2, 16))))
+            else:
+                piece = G.gen_piece(rng, n_tracks=kw["num_tracks"], pitch_range=(lo, hi), values=kw.get("note_values") or None)
             ctx.check("closed", {"cfg": kw, "tracks": piece["tracks"], "before": before} if (before and pi == 0) else {"cfg": kw, "tracks": piece["tracks"]})
             res = P.op_tokenise(cfg, None, piece["tracks"])
             ctx.corr("tokenise", res)
